@@ -52,3 +52,24 @@ Theorem C16_parts_cover : forall s p mx parts npb dg, 1 <= s ->
   FpsUtil.parse_num_per_batch s p mx = Some (parts, npb, dg) ->
   1 <= parts /\ 1 <= npb /\ parts * npb >= s.
 Proof. exact parse_num_per_batch_spec. Qed.
+
+(* ---- `bb fps-split`: rows per part and zero-padding digits as the source computes them
+   (Gen/GUtil.split_plan, regenerated from cli._split_fps on every run) ---- *)
+(* every part index fits in the chosen number of digits ... *)
+Theorem C16_split_plan_digits : forall n parts mx per digits,
+  1 <= n -> (match mx with Some m => 1 <= m | None => True end) ->
+  GUtil.split_plan n parts mx = Some (per, digits) ->
+  1 <= per /\ forall i, 0 <= i < ceil_div n per -> i < 10 ^ digits.
+Proof. exact split_plan_digits_enough. Qed.
+(* ... hence the part names sort in part order, for every number of rows and either option *)
+Theorem C16_split_plan_names_sorted : forall n parts mx per digits stem i j,
+  1 <= n -> (match mx with Some m => 1 <= m | None => True end) ->
+  GUtil.split_plan n parts mx = Some (per, digits) ->
+  0 <= i < j -> j < ceil_div n per ->
+  str_ltb (part_name stem digits i) (part_name stem digits j) = true.
+Proof. exact split_plan_names_sorted. Qed.
+(* the command aborts exactly when not exactly one option is given, or fewer than two parts *)
+Theorem C16_split_plan_defined : forall n parts mx,
+  GUtil.split_plan n parts mx <> None <->
+  ((exists p, parts = Some p /\ 2 <= p /\ mx = None) \/ (parts = None /\ exists m, mx = Some m)).
+Proof. exact split_plan_defined. Qed.
